@@ -121,6 +121,7 @@ def p5_delete_stays_inside(mod, run, fnbase, tag, B, inlined=False):
     lk = fn.param_index("len")
     if lk is None: raise AnalysisBroken("%sDelete: parameter 'len' not found" % fnbase)
     fi, F, P = B.fp(fn)
+    F.assume_no_wrap = True          # precondition of Delete: there is an element to delete (len >= 1), so `len - 1` does not wrap
     L = fi.lin({"k": "arg", "v": lk, "t": fn.params[lk]["t"]})
     n = 0
     for c in fn.calls():
@@ -145,6 +146,29 @@ def p5_delete_stays_inside(mod, run, fnbase, tag, B, inlined=False):
             m2 = Module(build_module("packed-" + tag, [os.path.join(VERIF, "witness", "packed_%s.c" % tag)], "ndebug", inline=tuple(plan))) if plan else None
         if m2 is not None: return p5_delete_stays_inside(m2, run, fnbase, tag, Bounds(World(m2)), inlined=True)
     if n == 0: raise AnalysisBroken("%sDelete: no Set/Get call found" % fnbase)
+    return n
+
+
+def p6_lookup_reads_inside(mod, run, fnbase, tag, B):
+    """P6: Member / DeleteMember look at an element only at an index that is provably below len (binary search returns len for a value
+    above every element; the slot there holds whatever an earlier Delete left behind)"""
+    n = 0
+    for suffix in ("Member", "DeleteMember"):
+        fn = mod.fn(fnbase + suffix)
+        if fn is None: continue
+        lk = fn.param_index("len")
+        if lk is None: raise AnalysisBroken("%s%s: parameter 'len' not found" % (fnbase, suffix))
+        fi, F, P = B.fp(fn)
+        L = fi.lin({"k": "arg", "v": lk, "t": fn.params[lk]["t"]})
+        for c in fn.calls():
+            cal = c.get("callee") or ""
+            if not (cal.startswith(fnbase) and cal.endswith("Get")): continue
+            n += 1
+            idx = fi.lin(c.ops[1])
+            ok = P.prove_at(idx - L + 1, c.block)
+            run.check(ok, "P6-lookup-reads-only-the-array", {"fn": fn.name, "index": repr(idx), "set": tag},
+                      Finding("P6-lookup-reads-past-the-array", fn.name, cal, "index", "%s reads element %r at %s without a test that it is below len: for a value above every element the search returns len and the stale slot behind the array decides the answer" % (
+                          fn.name, idx, loc9(c)), loc=loc9(c)))
     return n
 
 
@@ -190,19 +214,22 @@ def run(tier):
     nl = check_inst(lm, run, dict(bits=12, slot=8, compact=False, value_bits=16, fn="varintPacked12"), "library")
     from ..core import World
     from ..bounds import Bounds
-    n5 = p5_delete_stays_inside(lm, run, "varintPacked12", "library", Bounds(World(lm)))
+    Bl = Bounds(World(lm))
+    n5 = p5_delete_stays_inside(lm, run, "varintPacked12", "library", Bl)
+    n6 = p6_lookup_reads_inside(lm, run, "varintPacked12", "library", Bl)
     # one generated instantiation per slot type as well (the code is the same macro text, the index type differs)
     qm, qtab = load("quick"); Bq = Bounds(World(qm)); seen_slots = set()
     for d in qtab:
         if d["slot"] in seen_slots or qm.fn(d["fn"] + "Delete") is None: continue
-        seen_slots.add(d["slot"]); n5 += p5_delete_stays_inside(qm, run, d["fn"], "quick", Bq)
+        seen_slots.add(d["slot"]); n5 += p5_delete_stays_inside(qm, run, d["fn"], "quick", Bq); n6 += p6_lookup_reads_inside(qm, run, d["fn"], "quick", Bq)
     per["library"] = {"instantiations": 1, "cases": nl, "delete_index_obligations": n5}
-    run.floor("Delete index obligations", n5, 2)
+    run.floor("Delete index obligations", n5, 2); run.floor("lookup index obligations", n6, 1)
+    per["library"]["lookup_index_obligations"] = n6
     controls(run)
     run.coverage.update({"sets": per, "exhaustive": False,
                          "eligibility": "BITS <= SLOT + gcd(BITS,SLOT) (never three slots); compact (always-two-slots path) only when BITS > SLOT",
                          "not_decided": "sorted insert/delete/member/binary-search semantics over operation histories; SetIncr arithmetic"})
-    run.assumptions += ["val < 2^BITS (documented precondition; an assert in the source)", "SetIncr: the incremented value stays in range (precondition in the property)"]
+    run.assumptions += ["P5: Delete is called with len >= 1 and offset < len (there is an element to delete)", "val < 2^BITS (documented precondition; an assert in the source)", "SetIncr: the incremented value stays in range (precondition in the property)"]
     return run.finish(
         "Each Set/Get/SetHalf/SetIncr of each instantiation is interpreted abstractly with the element position as an opaque symbol; the division "
         "offset*BITS / SLOT partitions it into SLOT/gcd residue classes, inside which every shift and mask is constant and every output bit is a "
